@@ -93,7 +93,7 @@ def part_b(item):
 
     def bad(kind, g, c, exp, got):
         if len(res['violations']) < 10:
-            res['violations'].append({'case': {'part': 'b', 'names': [g, c]}, 'expected': exp, 'observed': got,
+            res['violations'].append({'case': {'part': 'b', 'names': [g, c], 'slice': [lo, hi]}, 'expected': exp, 'observed': got,
                                       'signature': {'kind': kind}})
     for g in names3[lo:hi]:
         for c in names3:
@@ -228,7 +228,15 @@ def run(ctx):
 def replay(case):
     from nptdms.common import ObjectPath
     if case.get('part') == 'b':
-        return _one_cycle(*case['names'])
+        one = _one_cycle(*case['names'])
+        if one[0] or 'slice' not in case:
+            return one
+        # not reproducible in isolation: replay the worker's whole slice in the same order (process-level state)
+        r = part_b((case['slice'][0], case['slice'][1], strings(3)))
+        for v in r['violations']:
+            if v['case']['names'] == case['names']:
+                return True, v['expected'], v['observed']
+        return (bool(r['violations']), one[1], r['violations'][0]['observed'] if r['violations'] else one[2])
     if case.get('part') == 'c':
         r = part_c((case['which'], list(dict.fromkeys(strings(4) + EXTRA))))
         return (bool(r['violations']), 'own sentinel for every lookup', r['violations'][0]['observed'] if r['violations'] else 'ok')
